@@ -220,9 +220,28 @@ def S(v, acts, **kw):
     return d
 
 
+THOROUGH = [False]
+
+
 def workloads():
     """name -> (prelude sessions, the workload session, current version, recovery callback)"""
     w = {}
+    if THOROUGH[0]:
+        sh = lambda k: {"a": "shelve", "k": k}  # noqa: E731
+        w["cold_three_keys"] = ([], S(1, [C(1), C(2), C(3), C(2)]), 1)
+        w["source_change_three_keys"] = ([S(1, [C(1), C(2), C(3)])], S(2, [C(2), C(1)]), 2)
+        w["source_change_twice"] = ([S(1, [C(1), C(2)]), S(2, [C(1)])], S(3, [C(2)]), 3)
+        w["source_change_compress"] = ([S(1, [C(1), C(2)], compress=True)], S(2, [C(1)], compress=True), 2)
+        w["expires_invalid_compress"] = ([S(1, [C(1), C(2)], cb="valid", compress=True)],
+                                         S(1, [C(1), C(2)], cb="invalid", compress=True), 1)
+        w["shelve_cold"] = ([], S(1, [sh(1), sh(1), sh(2)]), 1)
+        w["shelve_after_source_change"] = ([S(1, [C(1), C(2)])], S(2, [sh(1), sh(2)]), 2)
+        w["clear_then_source_change"] = ([S(1, [C(1), C(2)])], S(2, [{"a": "clear"}, C(1), C(2)]), 2)
+        w["func_clear_then_calls"] = ([S(1, [C(1), C(2)])], S(1, [{"a": "fclear"}, C(1), C(2), C(1)]), 1)
+        w["reduce_one_of_three"] = ([S(1, [C(1), C(2), C(3)])],
+                                    S(1, [{"a": "atime", "k": 1, "t": 3000}, {"a": "atime", "k": 2, "t": 1000},
+                                          {"a": "atime", "k": 3, "t": 2000},
+                                          {"a": "reduce", "items_limit": 2, "evicts": [2]}, C(2)]), 1)
     w["cold"] = ([], S(1, [C(1)]), 1)
     w["warm_same_process"] = ([], S(1, [C(1), C(1), C(2)]), 1)
     w["warm_fresh_process"] = ([S(1, [C(1)])], S(1, [C(1), C(2)]), 1)
@@ -283,6 +302,10 @@ def torn_points(path, n, v):
     pts = {1, -1}                       # negative: counted from the end (lengths of json/pickles vary)
     if path.endswith("func_code.py"):
         pts |= {-(n // 2), len("# first line:"), len("# first line: "), len(HEADER), len(HEADER) + 7}
+    if THOROUGH[0]:
+        pts |= {2, 3, -2, -3, -(n // 2), -(n // 3), -(2 * n // 3)}
+        if path.endswith("func_code.py"):
+            pts |= set(range(1, len(HEADER) + 12)) | {-4, -5}
     return sorted(p for p in pts if p < n and p != 0 and -p < n)
 
 
@@ -403,7 +426,7 @@ def judge_crash(prep, res):
         if "raise" in r:
             bad.append(("call f(%d) in a fresh process after the crash raised %s: %s" % (k, r["raise"], r.get("msg", "")), False))
         elif r.get("ok") != [cur, k]:
-            sig = (prep["name"] == "source_change" and stale_guard_lost and isinstance(r.get("ok"), list)
+            sig = ("source_change" in prep["name"] and stale_guard_lost and isinstance(r.get("ok"), list)
                    and r["ok"][1] == k and r["ok"][0] != cur)
             bad.append(("call f(%d) in a fresh process after the crash returned %s, the function gives %s"
                         % (k, r.get("ok"), [cur, k]), sig))
@@ -443,11 +466,11 @@ def judge_extras(prep, res):
                 if o.get("mr") != "KeyError" and not (isinstance(v, list) and len(v) == 2 and v[1] == k):
                     bad.append(("%s returned %s, not a value of f(%d)" % (what, v, k), False))
             elif o.get("ok") != [cur, k]:
-                sig = (prep["name"] == "source_change" and stale_guard_lost and isinstance(o.get("ok"), list)
+                sig = ("source_change" in prep["name"] and stale_guard_lost and isinstance(o.get("ok"), list)
                        and o["ok"][1] == k and o["ok"][0] != cur)
                 bad.append(("%s returned %s, the function gives %s" % (what, o.get("ok"), [cur, k]), sig))
             elif a["a"] == "shelve_clear_call" and o.get("first") != [cur, k]:
-                sig = (prep["name"] == "source_change" and stale_guard_lost)
+                sig = ("source_change" in prep["name"] and stale_guard_lost)
                 bad.append(("%s: the shelved reference gave %s, the function gives %s" % (what, o.get("first"), [cur, k]), sig))
     return bad
 
@@ -604,6 +627,7 @@ def run(ctx):
         "path-based stdlib branch; harness/impl/c05_child.py; canonicalisation of paths/outcomes in harness/props/c05.py",
         "writer ids (thread id, pid) of different processes differ; sources are ASCII except in the F24 witness",
     ]
+    THOROUGH[0] = not quick
     gen_tie = source_order_tie(ctx)
     proofs_ok = ctx.standard_proof_stage("C05", extra_targets=["Model/FsShow.vo"])
     wls = workloads()
@@ -671,6 +695,9 @@ def run(ctx):
     ctx.finish({
         "evaluations": n_crash + len(done),
         "distinct_nontrivial": len(nontrivial),
+        "tier_depth": "thorough: 10 more workloads (3 keys, two source changes, compress x source change / invalidation, shelving "
+                      "cold and after a source change, clear followed by a source change, partial eviction) and torn prefixes at every "
+                      "byte of the func_code.py header + 2,3,n-2,n-3,n/3,2n/3 of every write" if not quick else "quick",
         "rule": "12 workloads (cold, warm same/fresh process, source change, expires_after invalid/valid, call_and_shelve, "
                 "compress=True, reduce_size, Memory.clear in a fresh and in the writing process, MemorizedFunc.clear); the child is killed before EVERY mutating "
                 "operation index of the workload trace, plus torn prefixes {1, n/2, n-1, header boundaries of func_code.py} of every "
